@@ -93,3 +93,22 @@ Theorem C10_https_preferred : forall rs os,
   scheme_ok rs os (pick_scheme rs os) = true.
 Proof. exact https_preferred. Qed.
 Print Assumptions C10_https_preferred.
+
+(* the chosen scheme is one offered for this request (transport's or operation's list) or the default http *)
+Theorem C10_scheme_offered : forall rs os, scheme_offered rs os (pick_scheme rs os) = true.
+Proof. exact pick_scheme_offered. Qed.
+Print Assumptions C10_scheme_offered.
+
+(* several operations built on one Runtime: the n-th request is what the operation alone gives,
+   whatever was built before it *)
+Theorem C10_history_stateless : forall base rs host steps n pattern ps caller os,
+  nth_error steps n = Some (pattern, ps, caller, os) ->
+  nth_error (create_history base rs host steps) n = Some (create_request base pattern ps caller rs os host).
+Proof. exact history_stateless. Qed.
+Print Assumptions C10_history_stateless.
+
+Theorem C10_history_prefix_irrelevant : forall base rs host pre pre' s,
+  nth_error (create_history base rs host (pre ++ [s])) (length pre) =
+  nth_error (create_history base rs host (pre' ++ [s])) (length pre').
+Proof. exact history_prefix_irrelevant. Qed.
+Print Assumptions C10_history_prefix_irrelevant.
